@@ -300,7 +300,7 @@ func (g *Gen) Render(root *ast.Root, pol Policy) *Layout {
 	for i, t := range toks {
 		isEnd := t == root.EndTkn
 		var ps []piece
-		if i == 0 && pol.Shebang {
+		if i == 0 && (pol.Shebang || g.LeadHashBang) {
 			ps = append(ps, piece{token.T_COMMENT, "#!/usr/bin/env php\n"})
 			lay.Classes["shebang"] = true
 		}
